@@ -107,9 +107,8 @@ func (R *Repository) getOrAddEntry(identifier string, loader crlloader.CRLLoader
 	}
 }
 
+// tryUpdateSignatureCertFromChain must be called with the entry write lock held
 func (R *Repository) tryUpdateSignatureCertFromChain(entry *Entry, chains *core.CertificateChains) {
-	entry.entryLock.Lock()
-	defer entry.entryLock.Unlock()
 	//check if no other thread updated the signature in meantime
 	if entry.LastUpdateSignatureVerifyFailed == true {
 		signature, err := verifyCRLSignature(entry.LastUpdateSignature, chains)
